@@ -726,7 +726,7 @@ func (c *c09Ctx) planCase(srv *c11Node, p c09Plan) {
 		rep.Sample(map[string]interface{}{"scenario": c09Scenario, "plan": p.String(), "writes": n, "writes_per_phase": perPhase, "driver_steps_at_write": steps, "write_sequence_runs": seq})
 	}
 	// ---- crash points
-	budget := verifutil.Scale(60, 150)
+	budget := verifutil.Scale(60, 110)
 	points := c09CrashPoints(ref.log, ref.phases, c.r, budget, verifutil.Scale(1, 4), false)
 	for _, k := range points {
 		if c.stop {
